@@ -1,5 +1,5 @@
 """C11 -- surjection proofs: complete, exact and canonically encoded."""
-import os, random
+import os, random, threading
 from c01 import b32, N
 LEVEL = "model_checking"
 MODULE = "C11_Surjection.tla"
@@ -108,8 +108,21 @@ def run(chk):
     chk.groups = ["surjection"]
     # the harness interpreter keeps its line/output buffers until exit; only memory errors of the code under test matter here
     os.environ["ASAN_OPTIONS"] = "detect_leaks=0"
-    chk.build(["std", "asan"] + ([] if quick else ["verify", "i64"]))
-    chk.model(MODULE, "C11_model.cfg", timeout=1800)
+    # the design-level model does not need the harness: compile while TLC runs it
+    err = []
+    def build():
+        try:
+            chk.build(["std", "asan"] + ([] if quick else ["verify", "i64"]))
+        except BaseException as e:
+            err.append(e)
+    t = threading.Thread(target=build)
+    t.start()
+    try:
+        chk.model(MODULE, "C11_model.cfg", timeout=1800)
+    finally:
+        t.join()
+    if err:
+        raise err[0]
     recs = chk.generate(MODULE, "C11_gen.cfg", "gen", timeout=1800 if quick else 7200)
     replay_safe(chk, recs, "std", "generated surjection records")
     parser = [r for r in recs if r["e"] in ("SjParse", "SjInit")]
